@@ -155,6 +155,47 @@ func lengthProductUnit(part, parts int) harness.Unit {
 	}}
 }
 
+// coincidenceUnit: key pairs CONSTRUCTED so that the point additions inside the exchange meet
+// their special cases: the peer's long-term point equals [x~]R_peer (the sum P + [x~]R is a
+// doubling), and, for the own side, t = d + x~ r takes the values 1, 2 and n-1. All are valid
+// exchanges (the reference computes an ordinary key), so both sides must return that key.
+func coincidenceUnit() harness.Unit {
+	return harness.Unit{Name: "constructed-coincidences", Run: func(c *harness.Ctx) {
+		keys := sm2k.Alphabet()
+		id := []byte("1234567812345678")
+		n := refsm2.N
+		for i, rk := range []int{5, 6, 8, 9, 10} {
+			r := keys[rk].D
+			R := keys[rk].Pub
+			xb := refsm2.XBar(R.X)
+			// peer long-term key with P = [x~]R: d = x~ * r mod n
+			d := new(big.Int).Mul(xb, r)
+			d.Mod(d, n)
+			if d.Sign() == 0 || d.Cmp(new(big.Int).Sub(n, big.NewInt(1))) >= 0 {
+				continue
+			}
+			peer := mkParty(d)
+			rPeer := party{r, R}
+			self := party{keys[(rk+3)%len(keys)].D, keys[(rk+3)%len(keys)].Pub}
+			rSelf := party{keys[(rk+5)%len(keys)].D, keys[(rk+5)%len(keys)].Pub}
+			// the constructed party as responder and as initiator
+			exchange(c, fmt.Sprintf("peer long-term point equals [x~]R of its ephemeral (r=%s), peer is B", keys[rk].Name), 16+i, id, id, self, peer, rSelf, rPeer)
+			exchange(c, fmt.Sprintf("peer long-term point equals [x~]R of its ephemeral (r=%s), peer is A", keys[rk].Name), 32, id, id, peer, self, rPeer, rSelf)
+			// own t = d + x~ r in {1, 2, n-1}: d = t - x~ r
+			for _, tv := range []*big.Int{big.NewInt(1), big.NewInt(2), new(big.Int).Sub(n, big.NewInt(1))} {
+				d2 := new(big.Int).Sub(tv, new(big.Int).Mul(xb, r))
+				d2.Mod(d2, n)
+				if d2.Sign() == 0 || d2.Cmp(new(big.Int).Sub(n, big.NewInt(1))) >= 0 {
+					continue
+				}
+				own := mkParty(d2)
+				exchange(c, fmt.Sprintf("own t = d + x~ r equals %s (r=%s), as A", tv.String()[:1], keys[rk].Name), 16, id, id, own, self, rPeer, rSelf)
+				exchange(c, fmt.Sprintf("own t = d + x~ r equals %s (r=%s), as B", tv.String()[:1], keys[rk].Name), 16, id, id, self, own, rSelf, rPeer)
+			}
+		}
+	}}
+}
+
 // shortVUnit searches ephemerals for which the shared point V has a leading zero byte.
 func shortVUnit() harness.Unit {
 	return harness.Unit{Name: "shared-point-leading-zero", Run: func(c *harness.Ctx) {
@@ -242,13 +283,13 @@ func rejectUnit() harness.Unit {
 var Prop = &harness.Prop{
 	ID:          "C13",
 	Level:       "exploration",
-	Rule:        "products over the 12-key alphabet (boundary d, GM/T keys, coordinates with leading zero bytes) for long-term and ephemeral keys (pairwise-pruned index schedule), identity lengths {0,1,16,255,8191}, key lengths {1,15,16,17,31,32,33,48,64,1024}; the GM/T 0003.5 worked example; ephemerals found by search whose shared point has a leading zero byte; both roles run on the library and K, S1, S2 are compared between the sides and with the independent GM/T 0003.3 reference; off-curve / infinite peer ephemerals and V = infinity must give an error. Distinct/non-trivial = distinct case labels.",
+	Rule:        "products over the 12-key alphabet (boundary d, GM/T keys, coordinates with leading zero bytes) for long-term and ephemeral keys (pairwise-pruned index schedule), identity lengths {0,1,16,255,8191}, key lengths {1,15,16,17,31,32,33,48,64,1024}; the GM/T 0003.5 worked example; ephemerals found by search whose shared point has a leading zero byte; both roles run on the library and K, S1, S2 are compared between the sides and with the independent GM/T 0003.3 reference; keys constructed so that the peer's long-term point equals [x~]R of its ephemeral (the inner addition is a doubling) and so that the own t = d + x~ r is 1, 2 or n-1; off-curve / infinite peer ephemerals and V = infinity must give an error. Distinct/non-trivial = distinct case labels.",
 	Assumptions: []string{"refsm2 correct (its key-exchange reproduces the GM/T 0003.5 example: K, S1/SB, S2/SA)", "klen is in bytes as the library API defines it"},
 	Bounds: func(tier string) string {
 		return "all 12x12x12 (A,B,ephemeral-index) combinations with key and identity lengths rotated pairwise" + map[bool]string{true: "; full product of 15 key lengths x 5 x 5 identity lengths on 4 key combinations", false: ""}[tier == "thorough"]
 	},
 	Units: func(tier string) []harness.Unit {
-		u := []harness.Unit{exampleUnit(), shortVUnit(), rejectUnit()}
+		u := []harness.Unit{exampleUnit(), shortVUnit(), rejectUnit(), coincidenceUnit()}
 		for i := range sm2k.Alphabet() {
 			u = append(u, productUnit(i, tier))
 		}
